@@ -106,6 +106,9 @@ impl Rec {
   /// callback running concurrently becomes observable), mark exit
   pub fn cb(&self, k: EvK) {
     let slow = self.item_delay_ms > 0 && matches!(k, EvK::Next(_));
+    // the library has fetched this callback and is about to run it: a point of its own, so that what
+    // other threads do between the fetch and the callback's first action is explored as well
+    rxverif_rt::point();
     let i = self.enter(k);
     if slow {
       another_rxrust::vstd::thread::sleep(Duration::from_millis(self.item_delay_ms));
